@@ -13,7 +13,10 @@
    schedules, the Go memory model and the race detector are outside Coq; they are sampled by
    harness/cmd/c10 (exhaustive n <= 40 x s <= 20, -race build, GOMAXPROCS sweeps). *)
 From Coq Require Import List Arith ZArith Bool Permutation.
-From PF Require Import Par.Partition Par.Interleave Par.ParProofs Par.ParExtra Check.C10.
+From PF Require Import Par.Partition Par.Interleave Par.ParProofs Par.ParExtra Par.ParSequence Check.C10.
+From Coq Require Import Reals.
+From PF Require Par.FloatDiv.
+From Flocq Require Core.
 Import ListNotations.
 
 (* ------------------------------------------------------------------ work partition (mesh.go) *)
@@ -191,6 +194,105 @@ Theorem addfield_parallel_exact :
 Proof. intros A V aeqb add H. exact (ParExtra.addfield_parallel_exact aeqb add H). Qed.
 Print Assumptions addfield_parallel_exact.
 
+(* ------------------------------------------------------------------ AddFieldParallel refines AddField *)
+
+(* The keyed-canvas theorem and the chunk-table refinement in ONE statement, on the bookkeeping of canvas.go
+   (positions map + slice of chunk arrays grown under chunkMutex).  For every field (distinct attribute names,
+   arbitrary value functions, arbitrary box), every well-formed canvas t and EVERY interleaving e of the per-chunk
+   jobs -- including the order in which they reach chunkIndex_atomic and grow the chunk table -- the canvas tp left by
+   AddFieldParallel and the canvas ts left by the sequential AddField (job after job, `addfield_seq_steps`) are
+   well formed and EQUAL for every reader: the same (attribute, chunk) keys exist and every cell of every chunk holds
+   the same value (`table_eq`; slot numbers in float1Data are not observable).  This is exactly what the harness'
+   bitwise chunk-table comparison tests.  Moreover the keys are the old ones plus the field's, and the value of a
+   cell is the old one plus the field's own value, once, inside the box, and the old one everywhere else. *)
+Theorem addfield_parallel_refines_sequential :
+  forall (A V : Type) (aeqb : A -> A -> bool) (add : V -> V -> V) (zero : V),
+    (forall a b, aeqb a b = true <-> a = b) ->
+  forall (val : A -> vec -> V) (mn mx : vec) (attrs : list A) e (t : @table (A * vec) V),
+    tinv (fkeqb aeqb) t -> NoDup attrs -> interleaving e (map job_tsteps (field_jobs val mn mx attrs)) ->
+    let tp := run_table (fkeqb aeqb) add zero e t in
+    let ts := run_table (fkeqb aeqb) add zero (addfield_seq_steps val mn mx attrs) t in
+    tinv (fkeqb aeqb) tp /\ tinv (fkeqb aeqb) ts /\ table_eq (fkeqb aeqb) zero tp ts
+    /\ (forall k, In k (keys tp) <-> In k (keys t) \/ In k (map fst (field_jobs val mn mx attrs)))
+    /\ forall a p,
+         let k := (a, chunk_pos p) in
+         let cell := cell_index (chunk_pos p) p in
+         (In a attrs -> in_box p mn mx ->
+          view (fkeqb aeqb) zero tp k cell = add (view (fkeqb aeqb) zero t k cell) (val a p))
+         /\ (~ (In a attrs /\ in_box p mn mx) ->
+             view (fkeqb aeqb) zero tp k cell = view (fkeqb aeqb) zero t k cell).
+Proof. intros A V aeqb add zero H. exact (ParSequence.addfield_parallel_refines_sequential aeqb add zero H). Qed.
+Print Assumptions addfield_parallel_refines_sequential.
+
+(* ------------------------------------------------------------------ sequences of operations on one canvas *)
+
+(* Operations: OAdd par f (AddField / AddFieldParallel of field f), OMarch par c (March / MarchParallel with cutoff c).
+   `step` runs one operation: an add executes ANY interleaving of the field's per-chunk jobs on the chunk table (the
+   sequential variant: job after job); a march appends the block meshes of the selected blocks in ANY order (map
+   iteration order / channel arrival order) and returns the triangles.  The per-block marcher is an arbitrary
+   function of the canvas contents, the cutoff and the block that returns well-formed block meshes.
+   Theorem: run the same operation list twice from equal canvases, choosing the sequential or the parallel variant
+   (and any schedule) independently for every operation in each run.  After EVERY step the two canvases are equal
+   (same chunks, same cell values) and at every march the two meshes have the same triangle multiset. *)
+Theorem sequence_parallel_eq_sequential :
+  forall (A V P C : Type) (aeqb : A -> A -> bool) (add : V -> V -> V) (zero : V) (dP : P),
+    (forall a b, aeqb a b = true <-> a = b) ->
+  forall (sel : A * vec -> bool) (march_block : @canvas (A * vec) V -> C -> A * vec -> @bmesh P),
+    (forall v1 v2 c k, canvas_eq v1 v2 -> march_block v1 c k = march_block v2 c k) ->
+    (forall v c k, bwf (march_block v c k)) ->
+  forall os1 os2 t1 t2 tr1 tr2,
+    tinv (fkeqb aeqb) t1 -> tinv (fkeqb aeqb) t2 -> table_eq (fkeqb aeqb) zero t1 t2 ->
+    Forall2 same_shape os1 os2 -> ops_wf os1 ->
+    run aeqb add zero dP sel march_block t1 os1 tr1 -> run aeqb add zero dP sel march_block t2 os2 tr2 ->
+    Forall2 (fun x y => table_eq (fkeqb aeqb) zero (fst x) (fst y) /\ obs_eq (snd x) (snd y)) tr1 tr2.
+Proof.
+  intros A V P C aeqb add zero dP H sel mb Hext Hwf.
+  exact (ParSequence.sequence_parallel_eq_sequential aeqb add zero dP H sel mb Hext Hwf).
+Qed.
+Print Assumptions sequence_parallel_eq_sequential.
+
+(* marching does not modify the canvas; every operation list has a sequential and a parallel run from every canvas
+   (so the theorem above is not vacuous); the empty canvas is well formed *)
+Theorem sequences_run :
+  forall (A V P C : Type) (aeqb : A -> A -> bool) (add : V -> V -> V) (zero : V) (dP : P)
+         (sel : A * vec -> bool) (march_block : @canvas (A * vec) V -> C -> A * vec -> @bmesh P),
+    (forall t par c t' ob, step aeqb add zero dP sel march_block t (OMarch par c) t' ob -> t' = t)
+    /\ (forall os (par : bool) t, exists tr,
+          run aeqb add zero dP sel march_block t
+              (map (fun o => match o with OAdd _ f => OAdd par f | OMarch _ c => OMarch par c end) os) tr)
+    /\ tinv (fkeqb aeqb) ({| positions := []; chunks := [] |} : @table (A * vec) V).
+Proof.
+  intros A V P C aeqb add zero dP sel mb. split; [exact (march_leaves_canvas aeqb add zero dP sel mb)|].
+  split; [exact (run_exists aeqb add zero dP sel mb) | exact (@tinv_empty (A * vec) V (fkeqb aeqb))].
+Qed.
+Print Assumptions sequences_run.
+
+(* What a block march reads.  The cube with lowest corner p reads the samples at its eight corners
+   (`cube_corners`, the cubeDataIndexIncrements of canvas.go); its case is the list of `sample < cutoff`.
+   (a) a cube of block b only reads b and its +x/+y/+z neighbours; (b) it does read each of the three face
+   neighbours: the last layer of cubes takes its +x/+y/+z corners from the neighbour's first samples;
+   (c) hence a cached block result may be reused when neither the block nor one of those neighbours was written;
+   (d) but the rule "re-march a block only when the block itself was written" (seeded change C10-H) is refuted:
+   one sample written in the +x neighbour changes a cube of the block. *)
+Theorem march_reads_neighbours :
+  (forall p q, In q (cube_corners p) -> upper_neighbourhood (chunk_pos p) (chunk_pos q)) /\
+  (forall bx by_ bz,
+     (exists p q, chunk_pos p = (bx, by_, bz) /\ In q (cube_corners p) /\ chunk_pos q = (bx + 1, by_, bz)%Z) /\
+     (exists p q, chunk_pos p = (bx, by_, bz) /\ In q (cube_corners p) /\ chunk_pos q = (bx, by_ + 1, bz)%Z) /\
+     (exists p q, chunk_pos p = (bx, by_, bz) /\ In q (cube_corners p) /\ chunk_pos q = (bx, by_, bz + 1)%Z)) /\
+  (forall (s s' : vec -> Z) cutoff b,
+     (forall q, upper_neighbourhood b (chunk_pos q) -> s q = s' q) ->
+     forall p, chunk_pos p = b -> cube_case s cutoff p = cube_case s' cutoff p).
+Proof.
+  split; [exact march_footprint|]. split; [exact ParSequence.march_reads_neighbours | exact cache_sound_with_neighbours].
+Qed.
+Print Assumptions march_reads_neighbours.
+
+Theorem per_block_cache_refuted : exists (s s' : vec -> Z) cutoff b p,
+  (forall q, chunk_pos q = b -> s q = s' q) /\ chunk_pos p = b /\ cube_case s cutoff p <> cube_case s' cutoff p.
+Proof. exact ParSequence.per_block_cache_refuted. Qed.
+Print Assumptions per_block_cache_refuted.
+
 (* ------------------------------------------------------------------ March / MarchParallel *)
 
 (* marchFloat1Parallel appends the block meshes in the order in which they arrive on the result
@@ -236,6 +338,29 @@ Theorem scan_prims_negative_count_refuted :
   exists s, 1 <= s /\ visitedZ (prim_count LineStrip 0) s <> [] /\ prim_work LineStrip 0 = 0.
 Proof. exact ParProofs.scan_prims_negative_count_refuted. Qed.
 Print Assumptions scan_prims_negative_count_refuted.
+
+(* ------------------------------------------------------------------ the Go work size is the model's *)
+(* mesh.go computes  workSize := int(math.Floor(float64(n) / float64(s))).  With rn = rounding to the nearest
+   float64: IF rounding is monotone, integers below 2^53 are floats and the relative error is at most 2^-53, THEN
+   the expression equals the integer quotient n / s for every 0 <= n < 2^53 and 1 <= s < 2^53 ... *)
+Theorem floor_float_div : forall rn : R -> R,
+  (forall x y, (x <= y)%R -> (rn x <= rn y)%R) ->
+  (forall z : Z, (Z.abs z < 2 ^ 53)%Z -> rn (IZR z) = IZR z) ->
+  (forall x, (/ IZR (2 ^ 53) <= x)%R -> (rn x <= x + x * / IZR (2 ^ 53))%R) ->
+  forall n s : Z, (0 <= n < 2 ^ 53)%Z -> (1 <= s < 2 ^ 53)%Z ->
+    Raux.Zfloor (rn (rn (IZR n) / rn (IZR s))%R) = (n / s)%Z.
+Proof. exact FloatDiv.floor_float_div. Qed.
+Print Assumptions floor_float_div.
+
+(* ... and the three IEEE facts hold for binary64 round-to-nearest-even (Flocq: rn64 = round radix2 (FLT_exp (-1074) 53)
+   ZnearestE), so the model's work_size IS the value of the Go expression.  (These two theorems use the real
+   numbers: Print Assumptions lists the axioms of Coq's standard library of reals, nothing else.) *)
+Theorem work_size_float64 : forall n s : nat,
+  (Z.of_nat n < 2 ^ 53)%Z -> 1 <= s -> (Z.of_nat s < 2 ^ 53)%Z ->
+  Z.to_nat (Raux.Zfloor (FloatDiv.rn64 (FloatDiv.rn64 (IZR (Z.of_nat n)) / FloatDiv.rn64 (IZR (Z.of_nat s)))%R))
+  = work_size n s.
+Proof. exact FloatDiv.work_size_float64. Qed.
+Print Assumptions work_size_float64.
 
 (* ------------------------------------------------------------------ non-vacuity *)
 Example c10_example :
